@@ -142,8 +142,44 @@ rails:
 """
 
 
+# Pure-Colang rails (Colang 1.0, rail ids PURE_BASE..PURE_BASE+49): the verdict is computed by the FLOW from its own view of
+# the variable (`if "BLK<i>" in $bot_message`), not by an action from the action-side context.  The flows' context is rebuilt
+# from the visible history, the actions' context from all ContextUpdate events - the two kinds of rails are the two readers.
+# To make the call observable the flow copies what it sees into `$rail_seen` and executes a note action, which is also passed
+# the variable as an action parameter (resolved on the action side): it records the flow's view, or both if they differ.
+PURE_BASE = 50
+
+
+def is_pure(i):
+    return PURE_BASE <= i < PURE_BASE + 50
+
+
+def pure_marker(i):
+    return f"BLK{i}"
+
+
+def v1_pure_rail_flow(kind, i):
+    var = "user_message" if kind == "in" else "bot_message"
+    exc = "InputRailException" if kind == "in" else "OutputRailException"
+    name = f"scripted {kind} rail r{i}"
+    return f"""
+define flow {name}
+  $rail_seen = ${var}
+  execute rail_{kind}_{i}_note(text=${var})
+
+  if "{pure_marker(i)}" in ${var}
+    if $config.enable_rails_exceptions
+      create event {exc}(message="blocked by {name}")
+    else
+      bot refuse to respond
+    stop
+"""
+
+
 def v1_rail_flow(kind, i):
     """A rail flow of the same shape as the shipped library rails (self check input / mask sensitive data)."""
+    if is_pure(i):
+        return v1_pure_rail_flow(kind, i)
     var = "user_message" if kind == "in" else "bot_message"
     exc = "InputRailException" if kind == "in" else "OutputRailException"
     name = f"scripted {kind} rail r{i}"
@@ -322,6 +358,20 @@ def _make_check(kind, i):
     return _system_action(check)
 
 
+def _make_note(kind, i):
+    """The note action of a pure-Colang rail: records what the flow saw (`$rail_seen`, set by the flow from its own context);
+    if the same variable resolved on the action side (`text=`) differs, both are recorded."""
+    async def note(text=None, context: dict = None):
+        seen = (context or {}).get("rail_seen")
+        if seen != text:
+            seen = f"<flow-side {seen!r} / action-side {text!r}>"
+        _STATE["rec"].append(["rail", kind, i, seen if isinstance(seen, (str, type(None))) else repr(seen)])
+        return True
+
+    note.__name__ = f"rail_{kind}_{i}_note"
+    return _system_action(note)
+
+
 def _make_mask(kind, i):
     async def mask(context: dict = None):
         var = "user_message" if kind == "in" else "bot_message"
@@ -441,7 +491,9 @@ def get_rails(case):
         rails = LLMRails(cfg, llm=_make_llm())
         for kind, ids in (("in", case["in"]), ("out", case["out"])):
             for i in sorted(set(ids)):
-                if case["ver"] == "1.0":
+                if case["ver"] == "1.0" and is_pure(i):
+                    rails.register_action(_make_note(kind, i), f"rail_{kind}_{i}_note")
+                elif case["ver"] == "1.0":
                     rails.register_action(_make_check(kind, i), f"rail_{kind}_{i}_check")
                     rails.register_action(_make_mask(kind, i), f"rail_{kind}_{i}_mask")
                 else:
